@@ -294,7 +294,8 @@ def lexical_obligations() -> list[tuple[str, Any, dict, str]]:
     for label, const, prod in PAIRS:
         rx = getattr(sc, const, None)
         if rx is None:
-            out.append((f"lex.{label}.language", False, {}, f"scanner constant {const} not found"))
+            # the scanner no longer has this constant: the pair cannot be stated - undecided (update the table), not a violation
+            out.append((f"lex.{label}.language", None, {}, f"scanner constant {const} not found: the lexical pair <{const}, {label}> can no longer be stated"))
             continue
         try:
             lr = regex_re(rx.pattern, rx.flags, EPS)
@@ -316,7 +317,7 @@ def lexical_obligations() -> list[tuple[str, Any, dict, str]]:
     for word, const in KEYWORDS:
         rx = getattr(sc, const, None)
         if rx is None or tail is None:
-            out.append((f"lex.keyword[{word}]", False, {}, f"{const} or the identifier tail class not found"))
+            out.append((f"lex.keyword[{word}]", None, {}, f"{const} or the identifier tail class not found"))
             continue
         try:
             mr = regex_re(rx.pattern, rx.flags, ALL)
